@@ -253,23 +253,23 @@ class Arr:
         return dot(self, other)
 
     def min(self, axis=None):
-        from . import npmodel
+        from . import models as npmodel
         return npmodel.NP.min(self, axis=axis)
 
     def max(self, axis=None):
-        from . import npmodel
+        from . import models as npmodel
         return npmodel.NP.max(self, axis=axis)
 
     def sum(self, axis=None):
-        from . import npmodel
+        from . import models as npmodel
         return npmodel.NP.sum(self, axis=axis)
 
     def all(self, axis=None):
-        from . import npmodel
+        from . import models as npmodel
         return npmodel.NP.all(self, axis=axis)
 
     def any(self, axis=None):
-        from . import npmodel
+        from . import models as npmodel
         return npmodel.NP.any(self, axis=axis)
 
     # ------------------------------------------------------------------ arithmetic (fresh buffers)
